@@ -341,9 +341,10 @@ def run_deriv(c, ctx: Ctx):
     elif kind == "Matern52Grad":
         def kf(a, b):
             u = (((a - b) / ls) ** 2).sum()
-            if float(u) < 1e-30:
-                # autograd cannot differentiate sqrt at 0: k = 1 - 5/6 r^2 + 25/24 r^4 + O(r^5) is exact for the (<= 2nd order
-                # per argument) derivatives taken at coincident points
+            if float(u) < 1e-8:
+                # autograd cannot differentiate sqrt at 0 and loses everything to cancellation (terms in 1/r) next to it:
+                # k = 1 - 5/6 r^2 + 25/24 r^4 - 1.242 r^5 + ...; the r^5 term contributes < 25 r^3 / l^2 < 1e-10 to the (<= 2nd order,
+                # one per argument) derivatives for r < 1e-4
                 return 1 - 5.0 / 6.0 * u + 25.0 / 24.0 * u**2
             r = u.sqrt()
             return (1 + math.sqrt(5) * r + 5.0 / 3.0 * r**2) * torch.exp(-math.sqrt(5) * r)
